@@ -211,14 +211,14 @@ theorem safe_den_call_k {E : Env} {o : Obj} {nm : String} {body : M} {enter : Lo
 
 theorem safe_den_callR_k {E : Env} {o : Obj} {nm : String} {body : M} {enter : Loc → Loc} {leave : Loc → Out → Loc}
     {s : Loc} {accB acc : Res Out → Prop} {ph : Phases Cell} {kx : PyErr → P} {kr k : Loc → P}
-    (hb : SafeE E accB ph (toProg body { enter s with self := s.obj o }))
+    (hb : SafeE E accB ph (toProg body (enter s)))
     (hF : ∀ r (ph' : Phases Cell), accB r → (∀ k', ph k' = .canon → ph' k' = .canon) →
       SafeE E acc ph' (match r with
         | .error e => kx e
         | .ok out => k (leave s out))) :
     SafeE E acc ph (den (.callR o nm body enter leave) s kx kr k) := by
   rw [den_callR]
-  have := den_eq_bind body { enter s with self := s.obj o }
+  have := den_eq_bind body (enter s)
     (fun r => match r with
       | .error e => kx e
       | .ok out => k (leave s out))
@@ -228,7 +228,7 @@ theorem safe_den_callR_k {E : Env} {o : Obj} {nm : String} {body : M} {enter : L
 
 /-- x() of a call result `o` of the generator `G` (the generator itself if the result aliases it, else a local value) -/
 def accXofRes (E : Env) (G : Nat) (o : Out) (rx : Res Out) : Prop :=
-  ∃ c, GoodOp E { self := G, selfFresh := freshOf o } .self c ∧ rx = seqX (E.info G) c
+  ∃ c, GoodOp E { self := objOf o G, selfFresh := freshOf o } .self c ∧ rx = seqX (E.info (objOf o G)) c
 
 /-- the integer part of `Private_key.sign` after `p1 = k' * G`: r = x(p1) mod n, s = k⁻¹ (hash + d r) mod n -/
 def signPost (n k hash d : Int) (ox : Out) : Res Out :=
@@ -268,13 +268,13 @@ theorem sign_tail (E : Env) (G : Nat) (hash rk d : Int) (o : Out) (s0 : Loc) (hs
         .ok { s with ke := pmod (ki * (s.kc + pmod (s.kd * s.kb) n)) n }) ;;
       .ite (fun s => s.ke == 0) (.ret fun _ => .error .rsZero) .skip ;;
       .ret fun s => .ok (.pair s.kb s.ke))) :
-    SafeE E acc ph (den (.callR .self "x" (mX E.info) (fun s => { self := s.self, selfFresh := freshOf s.r1 })
+    SafeE E acc ph (den (.callR .self "x" (mX E.info) (fun s => { self := objOf s.r1 s.self, selfFresh := freshOf s.r1 })
       (fun s o => { s with r2 := o }) ;; rest) s0 (fun e => Prog.ret (.error e)) (fun t => Prog.ret (.ok t.out))
       (fun t => Prog.ret (.ok t.out))) := by
   subst hrest
   refine safe_den_callR (accB := accXofRes E G o) ?_ ?_
-  · have := op_safe_x_g E { self := G, selfFresh := freshOf o } ph
-    simp only [Loc.obj, hs, hr1]
+  · have := op_safe_x_g E { self := objOf o G, selfFresh := freshOf o } ph
+    simp only [hs, hr1]
     exact this
   intro rx ph1 hrx _
   cases rx with
@@ -351,7 +351,7 @@ theorem op_safe_key_sign (E : Env) (G : Nat) (hash rk d : Int) (hG : ObjOK E G) 
 /-! ### `Public_key.verifies` -/
 
 def accInfOfRes (E : Env) (G : Nat) (o : Out) (rb : Res Out) : Prop :=
-  ∃ c, GoodOp E { self := G, otherInf := true, selfFresh := freshOf o } .self c ∧ rb = .ok (.bool (isInfC c))
+  ∃ c, GoodOp E { self := objOf o G, otherInf := true, selfFresh := freshOf o } .self c ∧ rb = .ok (.bool (isInfC c))
 
 def verifyPost (n r : Int) (ox : Out) : Res Out :=
   match ox with
@@ -417,7 +417,7 @@ theorem op_safe_key_verifies (E : Env) (kid G : Nat) (hash r s : Int) (hG : ObjO
     | ok o =>
       simp only
       refine safe_den_callR (accB := accInfOfRes E G o) ?_ ?_
-      · exact op_safe_eqinf_g E { self := G, otherInf := true, selfFresh := freshOf o } rfl ph1
+      · exact op_safe_eqinf_g E { self := objOf o G, otherInf := true, selfFresh := freshOf o } rfl ph1
       intro rb ph2 hrb _
       cases rb with
       | error e => exact Safe.ret (hacc _ ⟨t, ht, Or.inr ⟨o, hrm, Or.inl ⟨e, hrb, rfl⟩⟩⟩)
@@ -430,7 +430,7 @@ theorem op_safe_key_verifies (E : Env) (kid G : Nat) (hash r s : Int) (hG : ObjO
         · have hb' : isTrue ob = false := by simpa using hb
           simp only [hb', Bool.false_eq_true, if_false, den_skip]
           refine safe_den_callR (accB := accXofRes E G o) ?_ ?_
-          · exact op_safe_x_g E { self := G, selfFresh := freshOf o } ph2
+          · exact op_safe_x_g E { self := objOf o G, selfFresh := freshOf o } ph2
           intro rx ph3 hrx _
           cases rx with
           | error e =>
